@@ -233,8 +233,24 @@ static int recv_events(m_ctx_t *c, int timeout) {
     fetch_ms(&now, NULL);
     c->stats.idle_time += now - c->stats.last_time_called;
 
+    /*
+     * A callback may stop/pause/deregister a module, or deregister a source,
+     * whose event comes later in this same batch: keep them alive until the
+     * whole batch is processed, and skip sources that are not polled anymore.
+     */
     for (int i = 0; i < nfds && !err; i++) {
         ev_src_t *p = poll_recv(&c->ppriv, i);
+        if (p) {
+            m_mem_ref(p->mod);
+            m_mem_ref(p);
+        }
+    }
+
+    for (int i = 0; i < nfds && !err; i++) {
+        ev_src_t *p = poll_recv(&c->ppriv, i);
+        if (p && !p->ev) {
+            continue;
+        }
         if (p) {
             M_ASSERT(p->process);
             if (!p->mod) {
@@ -314,6 +330,15 @@ static int recv_events(m_ctx_t *c, int timeout) {
             /* Forward error to below handling code */
             err = EAGAIN;
             M_WARN("Received message without proper source: src -> %p\n", p);
+        }
+    }
+
+    for (int i = 0; i < nfds; i++) {
+        ev_src_t *p = poll_recv(&c->ppriv, i);
+        if (p) {
+            m_mod_t *mod = p->mod;
+            m_mem_unref(p);
+            m_mem_unref(mod);
         }
     }
 
